@@ -44,6 +44,13 @@ def isinst(eng, v, clsname):
             return z3.BoolVal(False)
         if isinstance(x, VObj):
             return z3.BoolVal(any(c.split(".")[-1] == name for c in eng.mro(x.cls)))
+        from vlib.pyvc import VOpaque
+        if isinstance(x, VOpaque):
+            cache = eng.state.ghost.setdefault("isinstance", {})
+            key = (id(x), name)
+            if key not in cache:
+                cache[key] = eng.fresh_bool("isinst_%s_%s" % (x.tag, name)).t
+            return cache[key]
         raise Exception("isinst on %r" % (x,))
     if isinstance(v, VOpt):
         return VBool(z3.And(z3.Not(v.none), one(v.val)))
@@ -75,6 +82,21 @@ class ParserHook:
         k = eng.force(key) if key is not None else None
         if val is None and k is not None and strval(k) == "CONTENT_LENGTH" and eng.cur_func.endswith("parse_header"):
             eng.state.ghost["cl_popped"] = True
+
+
+    def on_attr_write(self, eng, obj=None, field=None, val=None, node=None):
+        # C02: the first framing error of a chunked body is the one reported, whatever the rest of the same read contains
+        from vlib.pyvc import VObj, VNone
+        if field == "error" and isinstance(obj, VObj) and obj.cls == "receiver.ChunkedReceiver" and eng.cur_func.split("@")[0].endswith("ChunkedReceiver.received"):
+            cur = eng.state.heap.get((obj.oid, "error"))
+            if cur is not None:
+                import ast
+                fn = eng.repo.find(eng.cur_qual)
+                sites = [n for n in ast.walk(fn) if isinstance(n, ast.Attribute) and isinstance(n.ctx, ast.Store) and n.attr == "error"]
+                sites.sort(key=lambda n: (n.lineno, n.col_offset))
+                ordinal = next((i for i, n in enumerate(sites) if n.lineno == getattr(node, "lineno", None)), -1)
+                eng.oblige("%s/C02-first-framing-error-is-kept#store%d" % (eng.cur_func, ordinal),
+                           eng.identical(cur, VNone()), clause="self.error is None before `self.error = ...` (an earlier error is not replaced)", kind="assert")
 
 
 def attach(eng, reg, qual):
@@ -143,7 +165,8 @@ def install(reg):
                                   " result == fdn(old(self.header_plus) + data) - len(old(self.header_plus)) and self.headers_finished)"),
             ("head-incomplete", "implies(not old(self.completed) and old(self.body_rcv) is None and fdn(old(self.header_plus) + data) < 0"
                                 " and old(self.header_bytes_received) + len(data) < self.adj.max_request_header_size,"
-                                " result == len(data) and not self.completed and not self.headers_finished and self.header_plus == old(self.header_plus) + data)"),
+                                " result == len(data) and not self.completed and not self.headers_finished and self.header_plus == old(self.header_plus) + data"
+                                " and self.body_rcv is None and self.header_bytes_received == old(self.header_bytes_received) + len(data))"),
             ("header-limit", "implies(not old(self.completed) and old(self.body_rcv) is None and"
                              " (fdn(old(self.header_plus) + data) if fdn(old(self.header_plus) + data) >= 0 else old(self.header_bytes_received) + len(data))"
                              " >= self.adj.max_request_header_size,"
